@@ -214,6 +214,13 @@ func (p *packet) modifyParameters() (*modifyParameters, error) {
 		}
 		chg.Modification.Vals = make([]string, 0, len(modificationPacket.Children)-1)
 		for _, value := range modificationPacket.Children[1:] {
+			if value.TagType == ber.TypeConstructed {
+				// the SET OF attribute values: one (ber encoded) element per value
+				for _, v := range value.Children {
+					chg.Modification.Vals = append(chg.Modification.Vals, string(v.Bytes()))
+				}
+				continue
+			}
 			chg.Modification.Vals = append(chg.Modification.Vals, value.Data.String())
 		}
 
